@@ -48,6 +48,9 @@ func validDoc(r *run, kind string) *simrt.SimFile {
 	case "targets-json":
 		enc := vegeta.NewJSONTargetEncoder(f)
 		for _, s := range firstN(genTargetSpecs(t), 1+t.Choose(3)) {
+			if len(s.hdr) > 1 {
+				s.hdr = s.hdr[:1] // the encoder writes header keys in map order: one key keeps the document deterministic
+			}
 			tg := expected(s, nil, nil)
 			enc.Encode(&tg)
 		}
